@@ -477,3 +477,92 @@ def factory(clsname):
 # quantifies over "all trees" holds for them too (the harness itself only ever uses identity on nodes)
 SPECIAL_CLASSES = ["EqNode", "FalsyNode", "LenNode", "EqSlotLM", "ListNode", "TupleNode", "TupleNameNode"]
 TREE_CLASSES = ["Node", "AnyNode", "PlainNM", "SlotLM", "DictLM", "SymlinkNode", "MixNM", "MixLM", "ShadowData", "SlotStoreNM"] + SPECIAL_CLASSES
+
+
+# ---------------------------------------------------------------------------
+# class hierarchies created per case (C19): whatever a library caches per class must not leak from one case to the next
+_HIERARCHY_COUNTER = [0]
+
+
+def fresh_slot_hierarchy(mixin):
+    """Three new user classes Base(mixin) <- Sub(Base) <- SubSub(Sub), each adding a slot of its own ('name', 'extra', 'more').
+    They are registered in this module under unique names, so pickle can find them; release_hierarchy() removes them again."""
+    import sys
+
+    _HIERARCHY_COUNTER[0] += 1
+    tag = _HIERARCHY_COUNTER[0]
+    module = sys.modules[__name__]
+
+    def init(self, name=None, parent=None):
+        self.name = name
+        self.parent = parent
+
+    def rep(self):
+        return "%s(%r)" % (type(self).__name__, self.name)
+
+    out = []
+    base = mixin
+    for level, slot in enumerate(("name", "extra", "more")):
+        name = "Hier%d_%d" % (level, tag)
+        body = {"__slots__": (slot,), "__module__": __name__, "__qualname__": name, "_vf_hierarchy": level}
+        if level == 0:
+            body["__init__"] = init
+            body["__repr__"] = rep
+        cls = type(name, (base,), body)
+        setattr(module, name, cls)
+        out.append(cls)
+        base = cls
+    return out
+
+
+def release_hierarchy(classes):
+    import sys
+
+    module = sys.modules[__name__]
+    for cls in classes or ():
+        if getattr(module, cls.__name__, None) is cls:
+            delattr(module, cls.__name__)
+
+
+def own_slots(node):
+    """(slot name, value) of every slot declared by the user classes of a node (the mixins' bookkeeping slots excluded)."""
+    out = []
+    for cls in reversed(type(node).__mro__):
+        if cls in (LightNodeMixin, NodeMixin, object):
+            continue
+        slots = cls.__dict__.get("__slots__", ())
+        for slot in [slots] if isinstance(slots, str) else slots:
+            if slot in ("__dict__", "__weakref__") or slot.startswith("__"):
+                continue
+            out.append(("slot:" + slot, getattr(node, slot, "<unset>")))
+    return out
+
+
+def local_node_class():
+    """A node class made by a class factory ('<locals>' in its qualified name): fine for copy, unknown to pickle."""
+
+    class MadeByFactory(NodeMixin):
+        def __init__(self, name, parent=None, **kwargs):
+            self.__dict__.update(kwargs)
+            self.name = name
+            self.parent = parent
+
+        def __repr__(self):
+            return "MadeByFactory(%r)" % (self.name,)
+
+    return MadeByFactory
+
+
+def local_value(idx):
+    """Values that copy handles and pickle does not: a closure and an instance of a class defined inside a function."""
+
+    class Local:
+        def __init__(self, v):
+            self.v = v
+
+        def __eq__(self, other):
+            return type(other).__name__ == "Local" and other.v == self.v
+
+        __hash__ = None
+
+    return (lambda x: x + idx), Local([idx, {"k": idx}])
